@@ -11,14 +11,21 @@
   the toggles of global defaults, no use of any class and no other definition.  For a class without
   parent and references, `T = {c}` and the slice of a toggle-free history is `[define c src]`.
 
-  * `frame`              : for EVERY history (induction over the op list, no bound) outside the
-                           known-finding region `Excluded`, and every class of every closed `T`:
-                           `view (run h) c = view (run (slice T h)) c`.
-  * `frame_safe_tables`  : no exclusion at all when every row of the registry table is safe.
-  * `tables_ok`          : every row of the table generated from the CURRENT tree is safe or is a listed
-                           finding — the obligation a new name-keyed cache / in-place write breaks.
-  * `C15_statement` is false of the current code: `registry_counterexample`,
-    `required_counterexample` (kernel-checked), so what holds today is `C15_partial`.
+  * `C15_today`          : C15 at FULL strength for the configuration read from the table generated from the
+                           CURRENT tree — every history (induction over the op list, no bound), every
+                           closed `T`, every class of it: `view (run h) c = view (run (slice T h)) c`;
+                           no excluded region.  It rests on `tables_safe` (`decide`: every row of the table
+                           is safe), the obligation a new name-keyed cache / foreign-class write /
+                           in-place write to a definition attribute breaks.
+  * `frame`              : the general theorem for any configuration with identity-keyed caches, outside
+                           the region `Excluded cfg` in which that configuration's unsafe registries fire
+                           (`excluded_today`: for the current tree that region is empty).
+  * the two defects the pinned tree used to have (`FieldMeta._registry` keyed by bare class name, fixed
+    in /repo 2a0935f; `structure_to_schema` writing `cls._required` in place, fixed in 6efdaf1) are kept
+    as kernel-checked theorems about the configuration WITH those switches on
+    (`name_keyed_registry_breaks_frame`, `inplace_required_breaks_frame`): they show that the table
+    switches are not decorative, and `registry_fixed_example` / `required_fixed_example` evaluate the
+    same histories under today's configuration.
 
   The claim is PARTIAL: only state the extractor sees is in the model; the fresh-interpreter
   comparison of the `world` suite is the backstop.
@@ -140,9 +147,38 @@ theorem frame_safe_tables (rows : List RegistryRec) (hs : SafeTables rows) : C15
 
 /-! ### the current tree -/
 
-/-- every piece of process-wide state the extractor finds in the CURRENT tree is safe or a listed finding -/
+/-- every piece of process-wide state the extractor finds in the CURRENT tree is safe -/
+theorem tables_safe : SafeTables Generated.registries := by
+  unfold SafeTables
+  decide +kernel
+
+/-- (same obligation in the finding-tolerant form used while findings were open; the list is empty now) -/
 theorem tables_ok : ∀ r ∈ Generated.registries, r.safe = true ∨ r.findingKey ∈ Generated.knownFindingKeys := by
   decide +kernel
+
+/-- C15 at full strength for the current tree: for every history, every dependency-closed class set and
+    every class in it, the class's view after the history is its view when defined alone — no exclusion -/
+theorem C15_today : C15_statement (configOf Generated.registries) :=
+  frame_safe_tables Generated.registries tables_safe
+
+/-- the region excluded by the general `frame` theorem is empty for the current tree -/
+theorem excluded_today (h : List WorldOp) : Excluded (configOf Generated.registries) h :=
+  excluded_of_safe _ (safe_config_of_safe_tables _ tables_safe) h
+
+/-- using any class in a coherent world of the current tree changes the view of no class (no quietness
+    side condition any more) -/
+theorem use_changes_no_view_today (W : List (String × TypeId)) (w : World)
+    (g : Good (configOf Generated.registries) W w) (op : WorldOp) (huse : keepOp (fun _ => true) op = false)
+    (d : ClassId) :
+    view (configOf Generated.registries) (stepW (configOf Generated.registries) w op).1 d
+      = view (configOf Generated.registries) w d := by
+  have hs := safe_config_of_safe_tables _ tables_safe
+  have hq : quietStep (configOf Generated.registries) w op = true := by
+    have := quietRun_of_no_schema_write (configOf Generated.registries)
+      (by cases hc : configOf Generated.registries with
+          | mk a b c d e => rw [hc] at hs; cases d <;> simp_all [Config.safe]) [op] w
+    simpa [quietRun] using this
+  exact use_changes_no_view _ (cachesById_of_safe _ hs) W w g op huse hq d
 
 /-- switch-wise implication: every finding switch that is on in `a` is on in `b` -/
 def Config.le (a b : Config) : Bool :=
@@ -150,30 +186,18 @@ def Config.le (a b : Config) : Bool :=
   (!a.simplicityByName || b.simplicityByName) && (!a.schemaWritesRequired || b.schemaWritesRequired) &&
   (!a.serializerOnBase || b.serializerOnBase)
 
-/-- the configuration with exactly the two known findings: wrapper registry name-keyed, `_required`
-    written in place (what the pinned table says) -/
-def currentCfg : Config := ⟨true, false, false, true, false⟩
+/-- the tree the model is aligned with has every switch off -/
+theorem pinned_config : configOf Pinned.registries = safeConfig := by decide +kernel
 
-theorem pinned_config : configOf Pinned.registries = currentCfg := by decide +kernel
-
-/-- the current tree has no finding switch on beyond those of the pinned tree (a repair of a finding
-    keeps this true, a new hole does not) -/
+/-- the current tree has no finding switch on beyond those of the pinned tree -/
 theorem config_no_worse : Config.le (configOf Generated.registries) (configOf Pinned.registries) = true := by
   decide +kernel
 
-/-- the caches of the current tree are identity-keyed and `create_serializer` writes onto `cls` itself -/
-theorem current_caches_by_id : (configOf Generated.registries).cachesById = true := by decide +kernel
+/-- the configuration the tree had before /repo 2a0935f and 6efdaf1: wrapper registry name-keyed,
+    `_required` written in place -/
+def findingsCfg : Config := ⟨true, false, false, true, false⟩
 
-/-- what holds of the current tree: the frame property for every history that wraps no two different
-    same-named user classes (while the wrapper registry is name-keyed) and in which structure_to_schema
-    changes no `_required` (while it writes in place) -/
-theorem C15_partial (T : ClassId → Bool) (h : List WorldOp) (hx : Excluded (configOf Generated.registries) h)
-    (hcl : closed T h = true) (c : ClassId) (hT : T c = true) :
-    view (configOf Generated.registries) (runW (configOf Generated.registries) World.initial h) c
-      = view (configOf Generated.registries) (runW (configOf Generated.registries) World.initial (slice T h)) c :=
-  frame _ current_caches_by_id T h hx hcl c hT
-
-/-! ### counterexamples (the known findings), kernel-checked on the current configuration -/
+/-! ### the repaired defects: what the model does with the old switches on, and with today's table -/
 
 def fld (name : String) (kind : FieldKind) (dflt : Bool := false) (key : String := name) : FieldSpec :=
   { name := name, kind := kind, hasDefault := dflt, serKey := key, fastOk := true, trustedOk := true,
@@ -185,13 +209,14 @@ def clsB : ClassSrc := ⟨"B", none, [fld "x" (.wrap "User" 2)], false, none⟩
 /-- two user classes both called `User` (identities 1 and 2) -/
 def hReg : List WorldOp := [.define 0 clsA, .define 1 clsB]
 
-/-- `FieldMeta._registry` keyed by bare class name: B's field is validated against A's user class -/
-theorem registry_counterexample :
-    view currentCfg (runW currentCfg World.initial hReg) 1
-      ≠ view currentCfg (runW currentCfg World.initial (slice (fun d => d == 1) hReg)) 1
-    ∧ (stepW currentCfg (runW currentCfg World.initial hReg) (.construct 1 [("x", .inst 2)])).2.accepted = false
-    ∧ (stepW currentCfg (runW currentCfg World.initial hReg) (.construct 1 [("x", .inst 1)])).2.accepted = true
-    ∧ (stepW currentCfg (runW currentCfg World.initial [.define 1 clsB]) (.construct 1 [("x", .inst 2)])).2.accepted = true := by
+/-- with `FieldMeta._registry` keyed by bare class name (the tree before 2a0935f): B's field is validated
+    against A's user class -/
+theorem name_keyed_registry_breaks_frame :
+    view findingsCfg (runW findingsCfg World.initial hReg) 1
+      ≠ view findingsCfg (runW findingsCfg World.initial (slice (fun d => d == 1) hReg)) 1
+    ∧ (stepW findingsCfg (runW findingsCfg World.initial hReg) (.construct 1 [("x", .inst 2)])).2.accepted = false
+    ∧ (stepW findingsCfg (runW findingsCfg World.initial hReg) (.construct 1 [("x", .inst 1)])).2.accepted = true
+    ∧ (stepW findingsCfg (runW findingsCfg World.initial [.define 1 clsB]) (.construct 1 [("x", .inst 2)])).2.accepted = true := by
   decide +kernel
 
 def clsS : ClassSrc := ⟨"S", none, [fld "a" (.prim 0) false "aa", fld "b" (.prim 2) true], false, none⟩
@@ -199,46 +224,76 @@ def clsD : ClassSrc := ⟨"D", some (.omit 0 ["b"]), [], false, none⟩
 
 def hReq : List WorldOp := [.define 0 clsS, .toSchema 0, .define 1 clsD]
 
-/-- `structure_to_schema` writes `cls._required` in place: S's own `_required` changes, and a class
-    derived with Omit afterwards no longer requires `a` -/
-theorem required_counterexample :
-    view currentCfg (runW currentCfg World.initial hReq) 0
-      ≠ view currentCfg (runW currentCfg World.initial (slice (fun d => d == 0) hReq)) 0
-    ∧ (view currentCfg (runW currentCfg World.initial hReq) 0).map (·.required) = some ["aa", "b"]
-    ∧ (view currentCfg (runW currentCfg World.initial [.define 0 clsS]) 0).map (·.required) = some ["a"]
-    ∧ (stepW currentCfg (runW currentCfg World.initial hReq) (.construct 1 [])).2.accepted = true
-    ∧ (stepW currentCfg (runW currentCfg World.initial [.define 0 clsS, .define 1 clsD]) (.construct 1 [])).2.accepted = false := by
+/-- with `structure_to_schema` writing `cls._required` in place (the tree before 6efdaf1): S's own
+    `_required` changes, and a class derived with Omit afterwards no longer requires `a` -/
+theorem inplace_required_breaks_frame :
+    view findingsCfg (runW findingsCfg World.initial hReq) 0
+      ≠ view findingsCfg (runW findingsCfg World.initial (slice (fun d => d == 0) hReq)) 0
+    ∧ (view findingsCfg (runW findingsCfg World.initial hReq) 0).map (·.required) = some ["aa", "b"]
+    ∧ (view findingsCfg (runW findingsCfg World.initial [.define 0 clsS]) 0).map (·.required) = some ["a"]
+    ∧ (stepW findingsCfg (runW findingsCfg World.initial hReq) (.construct 1 [])).2.accepted = true
+    ∧ (stepW findingsCfg (runW findingsCfg World.initial [.define 0 clsS, .define 1 clsD]) (.construct 1 [])).2.accepted = false := by
   decide +kernel
 
-/-- the full statement is false of the code with the two known findings -/
-theorem C15_statement_fails_with_findings : ¬ C15_statement currentCfg := by
-  intro h
-  exact registry_counterexample.1 (h (fun d => d == 1) hReg 1 (by decide +kernel) (by decide +kernel))
+/-- the same history under TODAY's table: B checks its own `User` (identity 2), exactly as when alone -/
+theorem registry_fixed_example :
+    view (configOf Generated.registries) (runW (configOf Generated.registries) World.initial hReg) 1
+      = view (configOf Generated.registries) (runW (configOf Generated.registries) World.initial [.define 1 clsB]) 1
+    ∧ (stepW (configOf Generated.registries) (runW (configOf Generated.registries) World.initial hReg)
+         (.construct 1 [("x", .inst 2)])).2.accepted = true
+    ∧ (stepW (configOf Generated.registries) (runW (configOf Generated.registries) World.initial hReg)
+         (.construct 1 [("x", .inst 1)])).2.accepted = false := by
+  decide +kernel
 
-/-- both counterexample histories are exactly in the excluded region -/
-theorem counterexamples_are_excluded : ¬ Excluded currentCfg hReg ∧ ¬ Excluded currentCfg hReq := by
+/-- the same history under TODAY's table: `_required` of S is untouched by structure_to_schema (which
+    still emits ["aa", "b"]), and the Omit-derived class still requires `a` -/
+theorem required_fixed_example :
+    (view (configOf Generated.registries) (runW (configOf Generated.registries) World.initial hReq) 0).map (·.required)
+      = some ["a"]
+    ∧ (stepW (configOf Generated.registries) (runW (configOf Generated.registries) World.initial [.define 0 clsS])
+         (.toSchema 0)).2.keys = ["aa", "b"]
+    ∧ view (configOf Generated.registries) (runW (configOf Generated.registries) World.initial hReq) 0
+      = view (configOf Generated.registries) (runW (configOf Generated.registries) World.initial [.define 0 clsS]) 0
+    ∧ (stepW (configOf Generated.registries) (runW (configOf Generated.registries) World.initial hReq)
+         (.construct 1 [])).2.accepted = false := by
+  decide +kernel
+
+/-- the full statement is false of a tree with the two old switches on -/
+theorem C15_statement_fails_with_findings : ¬ C15_statement findingsCfg := by
+  intro h
+  exact name_keyed_registry_breaks_frame.1 (h (fun d => d == 1) hReg 1 (by decide +kernel) (by decide +kernel))
+
+/-- both histories lie exactly in the region `frame` excludes for that configuration -/
+theorem counterexamples_are_excluded : ¬ Excluded findingsCfg hReg ∧ ¬ Excluded findingsCfg hReq := by
   decide +kernel
 
 /-! ### non-vacuity -/
 
 def clsP : ClassSrc := ⟨"Order", none, [fld "id" (.prim 0), fld "who" (.wrap "User" 1), fld "n" (.prim 1) true "N"], true, none⟩
 def clsQ : ClassSrc := ⟨"Order", some (.inherit 0), [fld "extra" (.prim 2)], true, none⟩
-def clsR : ClassSrc := ⟨"Box", none, [fld "o" (.ref 1), fld "u" (.wrap "User" 1)], false, some false⟩
+def clsR : ClassSrc := ⟨"Box", none, [fld "o" (.ref 1), fld "u" (.wrap "User" 2)], false, some false⟩
 
-/-- a history with same-named classes, a shared user type, inheritance, a reference, uses of every
-    kind and a toggled-and-restored global default, that lies inside the region of `frame` -/
+/-- a history with same-named classes, two DIFFERENT user classes both named `User`, inheritance, a
+    reference, uses of every kind (incl. structure_to_schema on classes with defaults, renamed keys and
+    a reference) and a toggled-and-restored global default: under today's table the class `Box`
+    (identity 2) behaves as when only it and the classes it depends on are defined, although the two
+    worlds differ -/
 def hEx : List WorldOp :=
   [.define 0 clsP, .construct 0 [("id", .prim 0 true), ("who", .inst 1)], .setDefault .addProps false,
-   .define 1 clsQ, .serialize 0 [("id", .prim 0 true), ("who", .inst 1)], .createSerializer 1,
-   .define 5 clsA, .toSchema 5, .trustedDeserialize 1 [], .setDefault .addProps true, .define 2 clsR,
-   .deserialize 2 [("o", .struct 1), ("u", .inst 1)], .toSchema 5]
+   .define 1 clsQ, .serialize 0 [("id", .prim 0 true), ("who", .inst 1)], .createSerializer 1, .toSchema 0,
+   .define 5 clsB, .toSchema 5, .trustedDeserialize 1 [], .setDefault .addProps true, .define 2 clsR,
+   .deserialize 2 [("o", .struct 1), ("u", .inst 2)], .toSchema 1, .toSchema 2, .define 6 clsD]
 
 theorem frame_example :
-    Excluded currentCfg hEx ∧ closed (fun d => d ≤ 2) hEx = true
-    ∧ (view currentCfg (runW currentCfg World.initial hEx) 2).isSome = true
-    ∧ view currentCfg (runW currentCfg World.initial hEx) 2
-        = view currentCfg (runW currentCfg World.initial (slice (fun d => d ≤ 2) hEx)) 2
-    ∧ runW currentCfg World.initial hEx ≠ runW currentCfg World.initial (slice (fun d => d ≤ 2) hEx) := by
+    closed (fun d => d ≤ 2) hEx = true
+    ∧ (view (configOf Generated.registries) (runW (configOf Generated.registries) World.initial hEx) 2).isSome = true
+    ∧ view (configOf Generated.registries) (runW (configOf Generated.registries) World.initial hEx) 2
+        = view (configOf Generated.registries)
+            (runW (configOf Generated.registries) World.initial (slice (fun d => d ≤ 2) hEx)) 2
+    ∧ (stepW (configOf Generated.registries) (runW (configOf Generated.registries) World.initial hEx)
+         (.construct 2 [("o", .struct 1), ("u", .inst 2)])).2.accepted = true
+    ∧ runW (configOf Generated.registries) World.initial hEx
+        ≠ runW (configOf Generated.registries) World.initial (slice (fun d => d ≤ 2) hEx) := by
   decide +kernel
 
 end Typedpy.C15
